@@ -45,6 +45,8 @@ rule empty { condition: filesize == 0 }
 rule wfw { strings: $w = "foo" wide fullword condition: $w }
 rule afw { strings: $f = "TAIL" fullword condition: $f }
 rule wnc { strings: $n = "foo" wide nocase condition: $n }
+rule fibs { strings: $r = /x(a{1,60}){1,60}y/ condition: $r }
+rule rx { strings: $r = /HE[A-Z]+D\.+/ condition: $r }
 """
 
 
@@ -161,7 +163,8 @@ def entry_points(ck, w, variant="plain"):
     wf = "foo".encode("utf-16le")
     # matches whose neighbourhood check looks at the bytes right before the start / after the end of the data: the answer must not depend on what lies outside
     edge = [b"key=" + wf + b"x", b"key=" + wf + b"x\0", b"key=" + wf, wf + b"x", b"x" + wf, b"..xTAIL", b"TAILx", b"...TAIL", b"key=" + "FOO".encode("utf-16le") + b"1"]
-    bufs = [b"", b"L", text(8), text(4095), text(4096), text(4097), text(8192), text(12288), pe, pe + b"\0" * (4096 - len(pe))] + edge
+    # b"x" + 30 x b"a": the regexp of rule fibs runs out of fibers (ERROR_TOO_MANY_RE_FIBERS from every entry point); the scanner object goes on serving the next buffers
+    bufs = [b"", b"L", text(8), text(64), b"x" + b"a" * 30, text(64), text(4095), text(4096), text(4097), text(8192), text(12288), pe, pe + b"\0" * (4096 - len(pe))] + edge
     rep = w.batch(["reset", "compiler 0", "add 0 - " + yv.hx(EP_RULES % ()), "getrules 0 0", "cdestroy 0", "scanner 0 0"])
     assert rep[2]["errors"] == 0, rep[2]
     n = 0
